@@ -11,7 +11,7 @@ git -C $R/repo checkout -q --detach "$(git -C /repo rev-parse HEAD)"; git -C $R/
 rsync -a --delete --exclude target --exclude replays --exclude .git /verif/ $R/verif/
 sed -i "s#/repo/#$R/repo/#g" $R/verif/Cargo.toml
 cd $R/verif && cargo build --release -q --offline 2>&1 | tail -3
-seeds=("$@"); if [ ${#seeds[@]} -eq 0 ]; then seeds=($(ls /verif/seeded)); fi
+seeds=("$@"); if [ ${#seeds[@]} -eq 0 ]; then seeds=($(ls /verif/seeded | grep -E "^C[0-9]+-[0-9]+$")); fi
 for s in "${seeds[@]}"; do
   d=/verif/seeded/$s
   prop=$(jq -r .property $d/meta.json)
